@@ -171,6 +171,53 @@ def layout_record(rng, s, j, dt=None, t0=None, gaps=None, n=None):
     return build_record(rng, s, j, dt, n, rc, ic, t0=t0, gaps=gaps)
 
 
+def huge_record(rng, s, j, dt=None):
+    """Years of data: 17-21 thousand samples with storms and rises lasting hundreds to thousands of steps
+    (long wet spells on a fine grid), so that sizes and positions no small record reaches are exercised."""
+    dt = dt or rng.choice([600, 1800, 3600])
+    n = rng.randint(17000, 21000)
+    rc, ic = [], []
+    while len(rc) < n:
+        dry = rng.randint(100, 600)
+        rc += ["dry"] * dry
+        ic += [rng.choice(["fall", "fall", "flat"])] * dry
+        k = rng.randint(150, 2500)
+        lag = rng.randint(-3, 3)
+        r = ["heavy"] * k
+        i_ = ["fast"] * max(1, k + rng.randint(-2, 2))
+        if lag > 0:
+            i_ = ["slow"] * lag + i_
+        elif lag < 0:
+            r = ["light"] * (-lag) + r
+        m = max(len(r), len(i_))
+        r += ["light"] * (m - len(r))
+        i_ += ["slow"] * (m - len(i_))
+        # a few one-step interruptions inside the long event: bursts and rises of very different lengths
+        for _ in range(rng.randint(0, 3)):
+            q = rng.randrange(m)
+            if rng.random() < 0.5:
+                r[q] = "light"
+            else:
+                i_[q] = "slow"
+        rc += r + ["light"]
+        ic += i_ + ["slow"]
+    rc, ic = rc[:n], ic[:n]
+    # small increments so that levels stay moderate over thousands of rising steps
+    jd = j * (dt / 3600.0)
+    t0 = (rng.randint(631152000, 1500000000) // dt) * dt
+    rain = [rain_value(rng, c, s) for c in rc] + [0.0]
+    level = [0.0]
+    for i in range(n - 1):
+        c = ic[i]
+        level.append(level[-1] + (jd * 1.25 if c == "fast" else (jd * 0.5 if c == "slow" else (0.0 if c == "flat" else -jd * 0.75))))
+    removed = set()
+    if rng.random() < 0.5:
+        # a gap near one end: one stretch stays very long
+        a = rng.choice([rng.randint(50, 600), n - rng.randint(50, 600)])
+        removed = set(range(a, a + rng.randint(1, 40)))
+    return Record(dt, t0, rain, level, removed, 0, 1)
+
+
 def build_record(rng, s, j, dt, n, rc, ic, t0=None, gaps=None, pre=None, post=None):
     jd = j * (dt / 3600.0)
     if t0 is None:
